@@ -5,6 +5,9 @@ import (
 	"time"
 )
 
+// maxFixPeriodPoints bounds the per-series value slice of FixPeriodPlanner
+const maxFixPeriodPoints = 10000000
+
 type FixPeriodPlanner struct {
 	Main     shared.RequestProcessor
 	Duration time.Duration
@@ -17,6 +20,22 @@ func (m *FixPeriodPlanner) Process(ctx *shared.PlannerContext,
 	in chan []shared.LogEntry) (chan []shared.LogEntry, error) {
 	_from := ctx.From.UnixNano()
 	_to := ctx.To.UnixNano()
+	// the goroutine below divides by the step and the range and sizes a slice by (to-from)/step:
+	// refuse the parameters that would make it fault (it runs detached, a fault there kills the process)
+	step := ctx.Step.Nanoseconds()
+	duration := m.Duration.Nanoseconds()
+	if step <= 0 {
+		return nil, &shared.NotSupportedError{Msg: "zero or negative query resolution step widths are not accepted. Try a positive integer"}
+	}
+	if duration <= 0 {
+		return nil, &shared.NotSupportedError{Msg: "zero or negative range durations are not accepted"}
+	}
+	if _to < _from || _to-_from < 0 {
+		return nil, &shared.NotSupportedError{Msg: "end timestamp must not be before start time"}
+	}
+	if (_to-_from)/step >= maxFixPeriodPoints {
+		return nil, &shared.NotSupportedError{Msg: "exceeded maximum resolution of points per timeseries. Try increasing the query resolution step (?step=XX)"}
+	}
 	ctx.From = ctx.From.Truncate(m.Duration)
 	ctx.To = ctx.To.Truncate(m.Duration).Add(m.Duration)
 
@@ -40,7 +59,7 @@ func (m *FixPeriodPlanner) Process(ctx *shared.PlannerContext,
 				continue
 			}
 			entries = append(entries, shared.LogEntry{
-				TimestampNS: _from + int64(i)*ctx.Step.Nanoseconds(),
+				TimestampNS: _from + int64(i)*step,
 				Fingerprint: fingerprint,
 				Labels:      labels,
 				Message:     "",
@@ -60,11 +79,11 @@ func (m *FixPeriodPlanner) Process(ctx *shared.PlannerContext,
 				if entry.Fingerprint != fingerprint {
 					exportEntries()
 					fingerprint = entry.Fingerprint
-					values = make([]float64, (_to-_from)/ctx.Step.Nanoseconds()+1)
+					values = make([]float64, (_to-_from)/step+1)
 					labels = entry.Labels
 				}
-				idxFrom := ((entry.TimestampNS/m.Duration.Nanoseconds())*m.Duration.Nanoseconds() - _from) / ctx.Step.Nanoseconds()
-				idxTo := ((entry.TimestampNS/m.Duration.Nanoseconds()+1)*m.Duration.Nanoseconds() - _from) / ctx.Step.Nanoseconds()
+				idxFrom := ((entry.TimestampNS/duration)*duration - _from) / step
+				idxTo := ((entry.TimestampNS/duration+1)*duration - _from) / step
 
 				if idxTo < 0 || idxFrom >= int64(len(values)) {
 					continue
